@@ -117,6 +117,16 @@ def run(chk):
     with ProcessPoolExecutor(16) as ex:
         traces = list(ex.map(scenario, jobs, chunksize=4)) + list(ex.map(scenario_slow, slow, chunksize=2)) \
             + list(ex.map(scenario_cross, cross, chunksize=2))
+    # multicasts of acknowledged types met by relaying receivers never cause a NETWORK_ACK (judged by the C14 window clauses,
+    # only the C13 verdicts are taken here)
+    from checks import c14
+    relays = {a: {"multicast_relay": True} for a in (0o1, 0o2, 0o11, 0o21, 0o14)}
+    mjobs = [(s_, lvl, t_, n_) for (s_, lvl) in ((0, 1), (0o1, None), (0o2, 2), (0o11, 1)) for t_ in (65, 127, 191) for n_ in (0, 24)]
+    with ProcessPoolExecutor(16) as ex:
+        mtr = list(ex.map(c14.run_chunk, [(c14.BASE, relays, mjobs[k:k + 6], chk.seed * 17 + k, 3000) for k in range(0, len(mjobs), 6)]))
+    for t in mtr:
+        t["meta"]["fault"] = ["multicast", "relays"]
+    traces += mtr
     chk.phase("simulate")
     for t in traces:
         chk.case(str(t["meta"]))
@@ -131,6 +141,11 @@ def run(chk):
     for t, vs in zip(traces, verdicts):
         for v in vs:
             m = t["meta"]
+            if m.get("fault") == ["multicast", "relays"]:
+                if v["clause"].startswith("C13"):
+                    found.setdefault("%s:multicast:%s" % (v["clause"], v["detail"]), []).append(
+                        (dict(addrs=m["addrs"], opts=m["opts"], seed=m["seed"], jobs=m["jobs"]), v, t["wins"][v["at"] - 1]["ret"]))
+                continue
             typ = m["job"][2]
             tcls = "acktype" if 64 < typ < 192 else "plain"
             key = "%s:%s:hops%s:fault=%s:%s" % (v["clause"], tcls, "1" if m["hops"] == 1 else ">=2", m["fault"][0] if m["fault"] else "none",
